@@ -39,7 +39,7 @@ theorem splitOn_go_ne_nil (sep : Char) (s acc : Str) : splitOn.go sep s acc ≠ 
   | nil => simp [splitOn.go]
   | cons c cs ih => simp only [splitOn.go]; split <;> simp [ih]
 
-theorem splitOn_ne_nil (s : Str) (sep : Char) : splitOn s sep ≠ [] := splitOn_go_ne_nil sep s []
+theorem splitOn_ne_nil_c08 (s : Str) (sep : Char) : splitOn s sep ≠ [] := splitOn_go_ne_nil sep s []
 
 theorem join_cons_of_ne_nil (sep p : Str) (ps : List Str) (h : ps ≠ []) :
     join sep (p :: ps) = p ++ sep ++ join sep ps := by
@@ -59,7 +59,7 @@ theorem join_splitOn_go (sep : Char) (s acc : Str) :
     · rw [ih]; simp
 
 /-- `sep.join(s.split(sep)) == s` -/
-theorem join_splitOn (s : Str) (sep : Char) : join [sep] (splitOn s sep) = s := by
+theorem join_splitOn_c08 (s : Str) (sep : Char) : join [sep] (splitOn s sep) = s := by
   simp [splitOn, join_splitOn_go]
 
 theorem join_append (sep : Str) (A B : List Str) (hA : A ≠ []) (hB : B ≠ []) :
